@@ -1268,7 +1268,14 @@ def c14(sc, V, counters=None):
                     wbefore = s.before.w(wn)
                     started_here = any(m[0] == "ev" and m[1] == l[1] and m[2] == "start" for m in s.lines[:i])
                     stopped_here = any(m[0] == "ev" and m[1] == l[1] and m[2] == "stop" for m in s.lines[:i])
-                    if wbefore is not None and (wbefore["status"] in ("stopped", "starting") or stopped_here) and not started_here:
+                    # … or the step is a `start` request for exactly this watcher (an active watcher that is short of workers is
+                    # topped up by it: a refused spawn aborts that start like any other and the watcher is stopped)
+                    named = False
+                    if s.kind() == "req" and s.cmd() == "start" and isinstance(s.props(), dict):
+                        nm_ = s.props().get("name")
+                        named = isinstance(nm_, str) and nm_.lower() == wn.lower() and l[4] in ("before_spawn", "after_spawn") and \
+                            any(r[3] == "ok" for r in s.of("rep"))
+                    if wbefore is not None and (wbefore["status"] in ("stopped", "starting") or stopped_here or named) and not started_here:
                         failed_start[wn] = l[4]
                 if l[4] == "before_reap" and not s.snap.blocked:
                     # before_reap gates nothing (its result is ignored): whatever it returned or raised, the entry is
